@@ -172,6 +172,23 @@ def demuxSegment (ts : Bytes) : Except String SegPes := do
            firstIsVideo := ((pkts.filter (·.pusi)).head?).map (·.pid = vpid) }
   | _ => throw "segment-no-pat-pmt"
 
+/-- the media time a segment spans: the largest distance (in 90 kHz ticks, modulo 2^33) of a PES
+    time stamp of the segment from its first PES's -/
+def mediaSpan (sp : SegPes) : Nat :=
+  let all := (sp.video ++ sp.audio).map (·.pts)
+  match all with
+  | [] => 0
+  | _ =>
+    let lo := all.foldl min (all.headD 0)
+    -- (no wrap inside one segment unless it straddles 2^33: then measure from the smallest stamp above 2^32)
+    let hi := all.foldl max 0
+    if hi - lo < 2^32 then hi - lo
+    else
+      let up := all.filter (· ≥ 2^32)
+      let lo' := up.foldl min (up.headD 0)
+      let hi' := (all.filter (· < 2^32)).foldl max 0
+      hi' + 2^33 - lo'
+
 /-- the first video PES of a segment is a key frame: random access, PCR, and its Annex-B data
     begins with AUD, SPS, PPS -/
 def startsWithKey (p : Params) (sp : SegPes) : Bool :=
